@@ -510,6 +510,57 @@ def glue11(ctx: Ctx) -> None:
                    "cache then skips it, and its glue runs only after some unrelated later import", construct="installer returns with glue still pending")
 
 
+def glue13(ctx: Ctx) -> None:
+    """GLUE-13 the look-up of the module-provided glue reference tolerates every kind of sys.modules entry: the scan walks a
+    snapshot, so by the time a name's turn comes the module may be gone (KeyError), the entry may be any object (no __dict__), or
+    a lazy module whose first attribute access runs its import; all of these mean "no module-provided glue", none may escape"""
+    mod = ctx.P.mod("_glue")
+    insts = []
+    for q, fn in mod.defs.items():
+        if isinstance(fn, (ast.FunctionDef, ast.AsyncFunctionDef)):
+            srcs_ = _glue_sources(fn)
+            names_ = {x[0] for x in srcs_}
+            if any(isinstance(c.func, ast.Name) and c.func.id in names_ for c in calls_in(fn, scope_only=True)):
+                insts.append((fn, srcs_))
+    if len(insts) != 1:
+        raise AnalysisError(f"GLUE-13: {len(insts)} glue installers found (1 expected; see GLUE-8)")
+    inst, srcs = insts[0]
+    bsrc = [x for x in srcs if x[1] == "builtin"]
+    msrc = [x for x in srcs if x[1] == "module"]
+    if not msrc:
+        raise AnalysisError("GLUE-13: the installer takes no module-provided reference")
+
+    def builtin_src_before(st_: ast.AST) -> bool:
+        return any(removing and b_.lineno < st_.lineno for _, _, b_, removing in bsrc)
+
+    look = [st for _, _, st, _ in msrc]
+    for st in walk_scope(inst):
+        if isinstance(st, ast.stmt) and not isinstance(st, (ast.Try, ast.If, ast.For, ast.While, ast.With, ast.FunctionDef)) and st not in look \
+                and any(isinstance(x, ast.Subscript) and norm(x.value) == "sys.modules" and isinstance(x.ctx, ast.Load) for x in ast.walk(st)):
+            look.append(st)
+    for st in look:
+        tries = enclosing_tries(mod, st)
+        subs = [x for x in ast.walk(st) if isinstance(x, ast.Subscript) and norm(x.value) == "sys.modules"]
+        if any(broad_handlers(t) for t in tries):
+            t = [t for t in tries if broad_handlers(t)][0]
+            h = broad_handlers(t)[0]
+            if any(isinstance(n, (ast.Raise, ast.Return)) for n in ast.walk(h)) and builtin_src_before(st):
+                ctx.R.fail("GLUE-13", mod, h, "the handler of the module look-up leaves the installer after the built-in reference was already taken from its registry: that glue is lost")
+            else:
+                ctx.R.ok("GLUE-13", f"`{norm(st)[:70]}`", "any failure of the look-up (module gone from sys.modules, entry without a usable __dict__, lazy module failing to load) means: no module-provided glue")
+        elif tries:
+            caught = sorted({norm(h.type) for t in tries for h in t.handlers if h.type is not None})
+            ctx.R.fail("GLUE-13", mod, tries[0].handlers[0], f"the look-up `{norm(st)[:60]}` is guarded only against {caught}: the scan walks a snapshot of sys.modules, so the entry can be gone (KeyError), "
+                       "be an object without a __dict__ (AttributeError), or be a lazy module whose first attribute access runs its import and raises anything; whatever is not caught escapes from "
+                       "extract() (add_glue_as_needed runs outside every guard), the remaining modules are skipped, and a built-in reference already popped for this name is lost",
+                       construct="module look-up handler narrower than Exception")
+        elif subs:
+            ctx.R.fail("GLUE-13", mod, subs[0], f"`{norm(subs[0])}` is evaluated outside any handler: the scan walks a snapshot of sys.modules taken earlier, glue functions and other threads remove modules, "
+                       "so KeyError escapes from extract()", construct="unguarded sys.modules[...]")
+        else:
+            ctx.R.undecided("GLUE-13", f"the look-up `{norm(st)[:70]}` is outside any try: cannot decide which entries of sys.modules it tolerates")
+
+
 def glue12(ctx: Ctx) -> None:
     """GLUE-12 the scan iterates over a snapshot of sys.modules: glue functions import modules (their own helpers, the library's
     submodules), and so do other threads, so iterating the live dict raises `RuntimeError: dictionary changed size during
@@ -539,4 +590,4 @@ def glue12(ctx: Ctx) -> None:
         ctx.R.ok("GLUE-12", f"the scan iterates over a snapshot: {txt[:60]}")
 
 
-C17 = [glue_rules, glue9, glue10, glue11, glue12]
+C17 = [glue_rules, glue9, glue10, glue11, glue12, glue13]
